@@ -367,6 +367,8 @@ Pointset_Powerset<PSET>::fold_space_dimensions(const Variables_Set& vars,
            s_end = x.sequence.end(); si != s_end; ++si) {
       si->pointset().fold_space_dimensions(vars, dest);
     }
+    // Folding may make previously incomparable disjuncts comparable.
+    x.reduced = false;
   }
   x.space_dim -= num_folded;
   PPL_ASSERT_HEAVY(x.OK());
@@ -694,6 +696,8 @@ Pointset_Powerset<PSET>::topological_closure_assign() {
   for (Sequence_iterator si = x.sequence.begin(),
          s_end = x.sequence.end(); si != s_end; ++si) {
     si->pointset().topological_closure_assign();
+    // The closures of incomparable disjuncts may be comparable.
+    x.reduced = false;
   }
   PPL_ASSERT_HEAVY(x.OK());
 }
